@@ -226,10 +226,40 @@ func c18DocExec(op string) string {
 	if err != nil {
 		return "err " + xmlErrKind(err)
 	}
+	// a newly registered skip predicate replaces the previous one completely
+	skipNote := ""
+	if cast && len(m) > 0 {
+		var k1, k2 string
+		for k := range m {
+			k1 = k
+		}
+		if sub, ok := m[k1].(map[string]interface{}); ok {
+			for _, k := range sortedKeys(sub) {
+				k2 = k
+				break
+			}
+		}
+		f1 := func(t string) bool { return t == k2 }
+		f2 := func(t string) bool { return t == k1 }
+		mxj.SetCheckTagToSkipFunc(f1)
+		mxj.NewMapXml([]byte(doc), true)
+		mxj.SetCheckTagToSkipFunc(f2)
+		got, _ := mxj.NewMapXml([]byte(doc), true)
+		mxj.SetCheckTagToSkipFunc(nil)
+		mxj.SetCheckTagToSkipFunc(f2)
+		want, _ := mxj.NewMapXml([]byte(doc), true)
+		mxj.SetCheckTagToSkipFunc(nil)
+		if enc(map[string]interface{}(got)) != enc(map[string]interface{}(want)) {
+			skipNote = "SKIPHISTORY decoding under a skip predicate depends on the predicate registered before it"
+		}
+	}
 	// the key prefix reaches every reserved key: with a prefix other than '#' no "#text" key
 	note := ""
 	if tk := mxj.VerifOptions()["textK"]; tk != "#text" && hasKeyAnywhere(map[string]interface{}(m), "#text") {
 		note = fmt.Sprintf("KEYPREFIX the text key is %q but the decoded Map holds a \"#text\" key", tk)
+	}
+	if note == "" {
+		note = skipNote
 	}
 	return "ok " + enc(map[string]interface{}(m)) + " | " + note
 }
@@ -371,7 +401,7 @@ func c18Judge(op, impl, model string) Verdict {
 		v.Nontrivial = strings.HasPrefix(impl, "ok")
 		if len(ip) > 1 && ip[1] != "" {
 			v.OracleFail = ip[1]
-			v.Sig = "optdoc:keyprefix"
+			v.Sig = "optdoc:" + strings.ToLower(strings.Fields(ip[1])[0])
 		}
 		return v
 	}
